@@ -2366,9 +2366,8 @@ unsigned int XMLScanner::resolvePrefix(  const XMLCh* const        prefix
         emitError(XMLErrs::UnknownPrefix, prefix);
 
     // check to see if uriId is empty; in XML 1.1 an emptynamespace is okay unless
-    // we are trying to use it.
+    // we are trying to use it (in an element or in an attribute name).
     if (*prefix &&
-        mode == ElemStack::Mode_Element &&
         fXMLVersion != XMLReader::XMLV1_0 &&
         uriId == fElemStack.getEmptyNamespaceId())
         emitError(XMLErrs::UnknownPrefix, prefix);
